@@ -1,46 +1,62 @@
+# the librfn sources the WAV header code needs, each compiled as an object of its own (util.c wants time_now(): stub in the harness)
+WAVLIB = ['pack.c', 'util.c', 'string.c', 'wavheader.c']
 CHECK = dict(
     level='model_checking', distinct_global=True,
-    parts=[dict(name='c13', src=['harness/c13_wavheader.c'], workers=1,
+    parts=[dict(name='c13', src=['harness/c13_wavheader.c'], lib=WAVLIB, workers=1,
                 deadline=dict(quick=120, thorough=900)),
-           dict(name='c13d', src=['harness/c13_wavheader.c'], workers=16, cflags=['-DC13_DECODE_FIRST'],
+           dict(name='c13d', src=['harness/c13_wavheader.c'], lib=WAVLIB, workers=16, cflags=['-DC13_DECODE_FIRST'],
                 deadline=dict(quick=120, thorough=900))],
     rule='part c13 (states/transitions/traces): explicit-state BFS with vx_bfs to a fixpoint over the state graph of the two '
-         'mutators of the real wavheader.c - fill(0x00|0xff|0x55) as first step, init(rate in {1,8000,44100,192000}, channels '
-         'in {1,2,6,255,32767}, S16LE|S32LE|FLOAT), set_num_frames(0|1|2|1000|largest n that fits|that n + 1); a state is the '
-         'raw 80-byte structure plus the model (arguments of the last init, last frame count); after every init/'
-         'set_num_frames the oracle runs on the reached state: validate()==0, decode(encode(h)) equal to h field by field '
-         'and in length (decode from an exactly-sized buffer ending at a PROT_NONE page), RIFF size == encoded length - 8 + '
-         'data size, data size == frames * block_align, block_align/byte_rate/bits_per_sample/channels/rate/format follow '
-         'from the arguments. Violating states are still expanded. '
+         'mutators of the real wavheader.c (linked as a separate object, its statics part of every snapshot) - fill(0x00|0xff|0x55) '
+         'as first step, init(rate in {1,8000,44100,192000,65535,65536,768000,2^24+1}, channels in {1,2,6,8,127,128,255,256,2048,'
+         '4096,16383,32767}, S16LE|S32LE|FLOAT), set_num_frames(0|1|2|1000|65535|65536|65537|2^24|largest n that fits|that n + 1); '
+         'a state is the raw structure plus the model (arguments of the last init, last frame count); after every init/'
+         'set_num_frames the structure is copied and the oracle runs on the copy, the API functions with a non-const parameter '
+         'on further copies (an observation neither repairs nor disturbs the explored state): validate()==0, decode(encode(h)) '
+         'equal to h in every named member AND in every other non-padding byte of the structure, and in length (decode from an '
+         'exactly-sized buffer ending at a PROT_NONE page), RIFF size == encoded length - 8 + data size, data size == frames * '
+         'block_align, block_align/byte_rate/bits_per_sample/channels/rate follow from the arguments. Violating states are still '
+         'expanded. '
          'part c13d (evaluations/distinct_nontrivial): the decode-first clause over the complete C14 corpus (all byte '
-         'strings of length 0..L; 5 valid templates x <= D deviating fields x adversarial value menus x every truncation '
-         'length): every accepted string is re-encoded into a guard-paged buffer of exactly the reported length and compared '
+         'strings of length 0..L; 9 header templates - PCM16, PCM32, float+fact, extensible, 20-byte fmt, PCM16+fact, '
+         'extensible+fact, PCM16 followed by a LIST chunk, float+fact followed by a JUNK chunk - x <= D deviating fields x '
+         'adversarial value menus (see C14) x every truncation length; triple deviations from the core menus): every accepted '
+         'string is re-encoded into a guard-paged buffer of exactly the reported length and compared '
          'with the input, ignored extension bytes zeroed; plus the big-header family: full product of 18 fmt-extension lengths '
          '(0 .. 16 MiB, on both sides of 2^8, 2^12, 2^16, 2^17, 2^24) x 5 cb_size values x 3 format tags x fact chunk or not x 0/2 '
          'trailing bytes = 1080 headers of up to 16 MiB. evaluations = decode calls; distinct_nontrivial = distinct '
          '(template, input bytes, declared length) triples that were ACCEPTED and re-encoded, counted with a hash set',
-    bounds=dict(quick='mutator graph: complete reachable state space (histories of every length over the stated alphabet); '
-                      'decode-first: L = 2, D = 2, plus 1080 big headers',
-                thorough='mutator graph: complete reachable state space; decode-first: L = 3, D = 3, plus 1080 big headers'),
+    bounds=dict(quick='mutator graph: complete reachable state space (histories of every length over the stated alphabet: 3 fills, '
+                      '288 init triples, 10 frame counts); decode-first: L = 2, D = 2 (3271 single, 568 145 double deviations), plus '
+                      '1080 big headers',
+                thorough='mutator graph: complete reachable state space over 13 rates (adds 96000, 2^18, 2^24-1, 2^30, 2^31-1) x 22 '
+                         'channel counts (adds 3, 63, 64, 257, 2047, 4095, 8191, 8192, 16384, 32768) x 3 formats and 16 frame counts '
+                         '(adds 3, 255, 256, 257, 2^24+1, largest n - 1); decode-first: L = 3, D = 2 over the full menus + D = 3 over '
+                         'the core menus, plus 1080 big headers'),
     assumptions=['scope guard: init combinations whose block alignment exceeds 16 bits or whose byte rate exceeds 32 bits, and '
-                 'frame counts whose data or RIFF size exceeds 32 bits, are generated, skipped and counted; set_num_frames '
+                 'frame counts whose data or RIFF size exceeds 32 bits, are generated, skipped and counted; the header length that '
+                 'enters the RIFF limit is what the real encoder emits for the header at hand (no constant); set_num_frames '
                  'is applied only to an initialised header',
                  'argument values are the stated menus, not all of int x int x uint32; the structure arithmetic is linear in '
-                 'them, the menus hit 1, typical values and the largest values that fit',
-                 '"identical structure" is compared field by field over all 20 fields (the structure has no padding on x86-64)',
-                 'the fact chunk size (librfn writes 12 for a 4-byte payload) is not judged: the statement does not mention it',
+                 'them, the menus hit 1, typical values, both sides of 2^8 / 2^16 / 2^24 for every product that could be narrowed, '
+                 'and the largest values that fit',
+                 '"identical structure" = every member equal, padding excepted: named members are compared one by one, all other '
+                 'bytes after __builtin_clear_padding (a compiler without that builtin - clang 14 - compares every byte; the '
+                 'structure has no padding on x86-64 today)',
+                 'the fact chunk size (librfn writes 12 for a 4-byte payload) is not judged: the statement does not mention it; '
+                 'what rf_wavheader_get_format answers is not judged either (counted)',
                  'decode-first: "decodes successfully" means 0 <= result <= supplied length; inputs come from the bounded '
                  'C14 corpus, not from all byte strings'],
 )
 CHECK.update(
     technique='explicit-state model checking of the header mutators (BFS to a fixpoint against an argument-record model) plus '
               'bounded-exhaustive decode/re-encode over the C14 corpus',
-    level_text='Complete reachable state graph of rf_wavheader_init / rf_wavheader_set_num_frames over 3 start fillings x 60 '
-               'init argument triples x 6 frame counts, every reached structure checked against all clauses of the statement '
+    level_text='Complete reachable state graph of rf_wavheader_init / rf_wavheader_set_num_frames over 3 start fillings x 288 '
+               'init argument triples x 10 frame counts (thorough 858 x 16), every reached structure checked against all clauses of the statement '
                'through the real validate/encode/decode; and every accepted input of the C14 mutation corpus re-encoded and '
                'compared byte for byte.',
     level_note='Argument menus are finite (boundary values included); the decode-first direction is bounded by the corpus '
-               '(<= 3 field deviations from five templates, all strings up to 3 bytes). Trusted: the 10-line arithmetic model '
+               '(<= 3 field deviations from nine templates, all strings up to 3 bytes). Trusted: the 10-line arithmetic model '
                'and the reference parser used to locate ignored extension bytes.',
     design_ref='DESIGN.md section 4, C13',
 )
